@@ -150,6 +150,7 @@ class LedgerInvariant:
         self.mark = {}
         self.ctx = {}
         self.excused = {}          # node -> keys already reported under the refused-DELSA finding
+        self.excused_idx = {}
         world.monitors.append(self)
 
     def before_step(self, node, cause):
@@ -160,6 +161,14 @@ class LedgerInvariant:
     def after_step(self, node, cause):
         if node.state != 'running' or node.exited or node.controller is None:
             return
+        if self.excused.get(node.name):
+            # an excused SA is excused no longer once the daemon adds the same (daddr, proto, SPI) again: that is a new SA (the old one went
+            # with its own hard lifetime; a peer re-using an SPI brings the triple back - quick survey of C10, seed 1002605)
+            i0 = self.excused_idx.get(node.name, 0)
+            for op, key, _, _ in node.kernel.ledger[i0:]:
+                if op == 'add':
+                    self.excused[node.name].discard(key)
+        self.excused_idx[node.name] = len(node.kernel.ledger)
         led = node.kernel.ledger_set() - self.excused.get(node.name, set())
         trk = tracked_kernel_keys(node)
         self.checks += 1
